@@ -125,6 +125,13 @@ def run(ctx: core.Ctx):
                           {"engine": case["engine"], "rows": case["rows"][:k]}, None, d, note=f"{case['engine']['name']} row {k}: {d}", step=k)
     ctx.extra["meaning_engines"] = len(cases)
     ctx.extra["meaning_rows"] = nrows
+    # propositions read the value the variable holds NOW: the lifecycle behaviours with an edit of the configuration between two steps
+    # (spec/MC_Lifecycle, EditMode: a range locked or narrowed after the value was assigned, operators and term parameters replaced, ...)
+    from . import c13
+
+    ebehs, ecases = c13.edit_behaviours(ctx, 4)
+    c13.replay_behaviours(ctx, fl, ebehs, ecases, prefix="Rule.activate_with/edited-after-use/")
+    ctx.extra["edit_behaviours"] = len(ebehs)
     ctx.exhaustive = True
     ctx.rule = ("TLC enumerates 1,548 antecedent trees x 3 parenthesis styles (x spaced / unspaced parentheses in the replay); every text is loaded by Rule.create and "
                 "its postfix compared; the trees are evaluated by the specification inside engines for 53 of the 63 operator pairs (a subset of the chunks; the 10 compositions of a discontinuous with a quotient norm are ill-conditioned in binary64) or "
